@@ -179,7 +179,7 @@ def plan(prop, tier, seed):
         data(n(50, 600)); data(n(10, 80), with_close=True, updates=True); fam(n(20, 200), scen.window_session, "window"); data(n(3, 30), big_groups=True)
         fam(n(12, 200), scen.deep_session, "deep"); fam(n(6, 60), scen.queue_full_session, "queue-full")
     elif prop == "C02":
-        data(n(40, 400)); fam(n(40, 500), scen.window_session, "window"); fam(n(25, 400), scen.refresh_session, "refresh"); fam(n(4, 40), scen.queue_full_session, "queue-full")
+        data(n(40, 400)); data(n(12, 150), faults=False); fam(n(40, 500), scen.window_session, "window"); fam(n(25, 400), scen.refresh_session, "refresh"); fam(n(4, 40), scen.queue_full_session, "queue-full")
     elif prop == "C03":
         data(n(50, 500), p_rel=0.5); data(n(20, 250), with_close=True, updates=True); data(n(5, 60), big_groups=True); fam(n(30, 400), scen.wrap_partial_session, "wrap-partial"); fam(n(4, 40), scen.queue_full_session, "queue-full"); fam(n(10, 150), scen.bad_group_session, "bad-groups")
     elif prop == "C04":
